@@ -708,3 +708,12 @@ LEVEL_NOTE = (LEVEL_NOTE.replace("Spec/Zone.v as a model of zoneinfo (validated 
                                  "C accelerator vs _zoneinfo.py and the rule expansion still validated against zoneinfo at every probe)"))
 LEVEL_TEXT = (LEVEL_TEXT + " The specification Spec/Zone.v itself is proved equal to the translation of CPython's own pure-Python zoneinfo "
               "lookups (_ts_to_local, utcoffset, fromutc) for every table, wall second and instant.")
+
+
+# ---- model side tied to /repo by translation + proof (appended) ----
+_GLUE_NEW = ("the hand-written model coq/Model/TzConvert.v is PROVED equal (model_is_code_* theorems) to the machine translation of pendulum's own code, coq/Gen/TzGlue.v, translated from /repo's src/pendulum/tz/timezone.py and src/pendulum/datetime.py on every run (tools/vlib/gens/g15_tz_glue.py; VERIF_REPO honoured): Timezone.convert (naive and aware branch), Timezone.datetime, FixedTimezone.convert / utcoffset / fromutc / datetime, DateTime.create, in_timezone, in_tz, astimezone, add (fixed-unit, naive and calendar branches), int_timestamp. A semantic change of one of these functions changes the generated definition and breaks a proof (not only a source pin). By hand in that translation: the object model and native primitives of coq/Model/TzGlueObj.v (a datetime object = wall value + fold + tzinfo, its CLASS is not modelled; ZoneInfo.utcoffset / fromutc, datetime + timedelta, the datetime constructor, replace(fold=/tzinfo=), utcfromtimestamp - each tied to CPython's source by a spec_is_stdlib_* theorem of C02 / C11), the dispatch of tz.utcoffset / fromutc / convert on the class of tz, native astimezone = tz.fromutc((self - utcoffset).replace(tzinfo=tz)); recognised rewrites: cast(T, e) -> e, pendulum._safe_timezone(x) -> x for an x that already is a Timezone/FixedTimezone (strings, numbers, foreign tzinfo objects, 'local' are out of scope of the translation), cls(...)/datetime.datetime(...) -> the native constructor, any([..]) -> bool(.. or ..). Assumption: `dt + timedelta` inside Timezone.convert is the native addition (dt a native datetime, as in DateTime.create; a naive pendulum DateTime in a gap would run DateTime.__add__ instead). STILL hand-written + pinned only: pendulum.from_timestamp (from_timestamp_int), DateTime.instance, set / on / at / replace, _safe_timezone itself, DateTime.__add__/__sub__/_add_timedelta_, the naive / local-time paths; the add theorems for the naive and calendar branches carry the hypothesis that add_duration's result lies in years 1..9999 (proved for the fixed-unit branch)")
+TRUSTED = [t for t in TRUSTED] + [_GLUE_NEW]
+LEVEL_NOTE = (LEVEL_NOTE + " Model/TzConvert.v is no longer tied to /repo by pins and correspondence only: Gen/TzGlue.v is the translation of "
+              "pendulum's timezone glue from /repo on every run and the model_is_code_* theorems prove the hand model equal to it "
+              "(native operations as primitives tied to CPython by the spec_is_stdlib_* theorems; from_timestamp, instance, set/on/at/replace "
+              "remain hand-written + pinned).")
